@@ -51,6 +51,45 @@ def construct_paths(repo, cls):
     return cont, done
 
 
+def defined_attribute_rule(chk, repo, clause):
+    """A plane needs no pixel scale to be applied (scalar and un-sampled planes have none): once the type table has
+    accepted the pair, `multiply` evaluates only attributes that are defined for such a plane.  Which attributes are not
+    is computed: a property whose getter, with the pixel scale None, returns arithmetic on None or raises."""
+    import ast as _ast
+    cls = repo.cls('plane.Plane')
+    facts = {nf.attr(S('self'), '_pixelscale').single_atom(): NONE, nf.attr(S('self'), 'pixelscale').single_atom(): NONE}
+    partial = {}
+    for m in (cls.methods.values() if isinstance(cls.methods, dict) else cls.methods):
+        if not m.is_property:
+            continue
+        try:
+            _, pp, _ = analyse(repo, m, facts=facts, types={('sym', 'self'): cls})
+        except AnalysisError:
+            continue
+        for p in pp:
+            r = p.ret
+            if p.status == 'raise':
+                partial[m.name] = 'raises without a pixel scale'
+            elif isinstance(r, Poly) and r != NONE and any(a[0] == 'val' and a[1] == NONE for a in nf.value_atoms(r)):
+                partial[m.name] = 'computes with the pixel scale'
+    bad, n = [], 0
+    for c in [k for mod in repo.modules.values() for k in mod.classes.values()]:
+        if c is not cls and cls not in getattr(c, 'mro', lambda: [])() and not any((b or '').split('.')[-1] in ('Plane', 'Pupil', 'Image', 'TiltInterface', 'Tilt') for b in c.base_exprs):
+            continue
+        fm = c.methods.get('multiply') if isinstance(c.methods, dict) else next((m for m in c.methods if m.name == 'multiply'), None)
+        if fm is None:
+            continue
+        n += 1
+        for node in _ast.walk(fm.node):
+            if isinstance(node, _ast.Attribute) and isinstance(node.value, _ast.Name) and node.value.id == 'self' \
+                    and isinstance(node.ctx, _ast.Load) and node.attr in partial:
+                bad.append(f'{fm.key} reads self.{node.attr} at {fm.loc(node)} ({partial[node.attr]})')
+    chk.ob(clause, 'D-flow', 'plane.Plane.multiply', 'the product evaluates only attributes that are defined for a plane without a pixel scale',
+           (not bad) if n and partial else None,
+           ('; '.join(bad[:2]) + ': a sampled plane given without a pixel scale is refused with a TypeError although the type table allows the pair')
+           if bad else f'{n} multiply method(s); undefined without a pixel scale: {sorted(partial)}', '')
+
+
 def run(chk, repo, tier):
     from .common import no_hidden_state
     no_hidden_state(chk, repo, 'C08')
@@ -365,6 +404,7 @@ def run(chk, repo, tier):
 
     from .c07 import product_shape_rule
     product_shape_rule(chk, repo, 'C08-f')
+    defined_attribute_rule(chk, repo, 'C08-f')
     # ---------------------------------------------------------------- C08-e
     allowed = {'wavefront.Wavefront.__init__': 'validated by the setter',
                'wavefront.Wavefront.ptype#setter': 'the validating setter',
